@@ -226,7 +226,15 @@ def check_relation(ctx, c):
         if mask is not None:
             kwm["mask"] = mask
             kwl["mask"] = mask.reshape(-1)
-        a = _est(tuple(axes) if dim > 1 else axes[0], f, edges, mesh_type="structured", **kwm)
+        # the grid values in whatever memory order the user's array has (C, Fortran, a transposed (y, x) raster)
+        lay = str(rng.choice(["C", "F", "view"]))
+        f_arg = f
+        if lay == "F":
+            f_arg = np.asfortranarray(f)
+        elif lay == "view" and f.ndim >= 2:
+            f_arg = np.ascontiguousarray(np.swapaxes(f, -1, -2)).swapaxes(-1, -2)
+        ctx.cell(f"structured/layout={lay}")
+        a = _est(tuple(axes) if dim > 1 else axes[0], f_arg, edges, mesh_type="structured", **kwm)
         b = _est(arg(grid), f.reshape((nf, -1)) if nf > 1 else f.reshape(-1), edges, **kwl)
         ctx.event("estimator_calls", 2)
         ctx.cell(f"structured/dim{dim}/shape{'x'.join(map(str, shape))}")
